@@ -71,6 +71,11 @@ C_close_close       == << <<"close">>, <<"close">> >>
 C_pingpong_closeping == << <<"ping", "pong">>, <<"close", "ping">> >>
 C_ping_close_pong   == << <<"ping">>, <<"close">>, <<"pong">> >>
 C_ping2_close_pong2 == << <<"ping", "ping">>, <<"close">>, <<"pong", "pong">> >>
+\* "~": short deadline
+C_pingS_ping_close  == << <<"ping~">>, <<"ping">>, <<"close">> >>
+C_pingS2_ping       == << <<"ping~", "ping~">>, <<"ping">> >>
+C_pingS_pong        == << <<"ping~">>, <<"pong">> >>
+C_mixS              == << <<"ping~", "ping">>, <<"close">>, <<"pong", "pong~">> >>
 
 Plan == [i \in 1..Len(Shapes) |-> Shape(Role, Shapes[i])]
 GenProgram == [msgs |-> [i \in 1..Len(Shapes) |-> Plan[i].frames], ctl |-> Ctl, closer |-> Closer]
@@ -89,18 +94,25 @@ Waits(pcs, p) == pcs[p] \in {"acq", "acq2"} /\ (p = "D" \/ ControlTakesLock)
 CanAcquire(p) == \/ pc[p] = "acq" /\ (lock = NoProc \/ (p # "D" /\ ~ControlTakesLock))
                  \/ p = "D" /\ pc[p] = "acq2" /\ lock = NoProc
 Turn(p)  == Fifo /\ Waits(pc, p) => (q # <<>> /\ p = Head(q))
-Busy(p)  == pc[p] \in {"prep", "chk", "latch", "rel", "rel1", "ret"}
+\* a control write with a short deadline that finds the lock taken gives up (the holder is
+\* parked at a gate: it certainly waits longer than the deadline); with the lock free it
+\* is predicted to get it
+GivesUp(p) == p \in KProcs /\ pc[p] = "acq" /\ Short(p) /\ ControlTakesLock /\ lock # NoProc
+Busy(p)  == pc[p] \in {"prep", "chk", "latch", "rel", "rel1", "ret"} \/ GivesUp(p)
 BusySet  == {p \in Procs : Busy(p)}
 Before(p, r) == p = "D" \/ (r # "D" /\ (r = "X" \/ (p # "X" /\ KIdx(p) < KIdx(r))))
 First(S) == CHOOSE p \in S : \A r \in S : p = r \/ Before(p, r)
 InQ(p)   == \E i \in 1..Len(q) : q[i] = p
 
 \* what the process does next, as far as the harness can see it: "g" it arrives at a gate,
-\* "r" its call returns, "l" it parks on the lock
+\* "r" its call returns, "l" it parks on the lock, "t" it waits for the lock until its
+\* short deadline expires and returns (the harness waits for that return)
 AfterBegin(p) ==
   IF p = "X" THEN "g"
   ELSE IF p = "D" THEN (IF Failed THEN "r" ELSE IF lock # NoProc THEN "l" ELSE "g")
-  ELSE IF lock # NoProc /\ ControlTakesLock THEN "l" ELSE IF Failed THEN "r" ELSE "g"
+  ELSE IF lock # NoProc /\ ControlTakesLock
+         THEN (IF IsShort(prog.ctl[KIdx(p)][call[p] + 1]) THEN "t" ELSE "l")
+  ELSE IF Failed THEN "r" ELSE "g"
 AfterWrite(p) ==
   IF p # "D" \/ closed THEN "r"
   ELSE IF pc[p] = "hdr" /\ Msg[fr] THEN (IF FlushAtomic \/ q = <<>> THEN "g" ELSE "l")
@@ -114,9 +126,9 @@ Item(op, p) == [op |-> op, p |-> p,
 
 Moves ==
   IF BusySet # {}
-    THEN Internal(First(BusySet)) /\ UNCHANGED hist
+    THEN LET p == First(BusySet) IN (IF GivesUp(p) THEN Timeout(p) ELSE Steady(p)) /\ UNCHANGED hist
   ELSE IF \E p \in Procs : CanAcquire(p) /\ Turn(p)
-    THEN \E p \in Procs : CanAcquire(p) /\ Turn(p) /\ Internal(p) /\ UNCHANGED hist
+    THEN \E p \in Procs : CanAcquire(p) /\ Turn(p) /\ Steady(p) /\ UNCHANGED hist
   ELSE \/ \E p \in Procs : Begin(p) /\ hist' = Append(hist, Item("b", p))
        \/ \E p \in Procs : TWrite(p) /\ hist' = Append(hist, Item("w", p))
        \/ XClose /\ hist' = Append(hist, Item("w", "X"))
